@@ -599,3 +599,41 @@ func assemblyStopsAtFinal(c *core.Ctx, r *core.Rule) {
 		r.Missing("ip6defrag/payload loop", "no loop appending fragment payloads found")
 	}
 }
+
+// trimmedPacketStartsAtNextSeq (R9.19): overlapExisting cuts from the packet
+// the bytes the stream already has; what is left starts exactly where the
+// connection continues.  Each of its returns hands back either the packet
+// unchanged (its own bytes and start parameters) or a re-slice of the bytes
+// together with the connection's nextSeq — not a sequence number computed from
+// the packet's own start, which differs from nextSeq when the whole packet lies
+// in the past (the amount cut is clamped to the packet's length) and then
+// rewinds the connection.
+func trimmedPacketStartsAtNextSeq(c *core.Ctx, r *core.Rule) {
+	p := c.P
+	fn := p.Func("reassembly", "Assembler.overlapExisting")
+	if fn == nil || len(fn.Blocks) == 0 {
+		r.Missing("reassembly.(*Assembler).overlapExisting", "not found")
+		return
+	}
+	res := fn.Signature.Results()
+	if res.Len() != 2 {
+		r.Missing("reassembly.(*Assembler).overlapExisting/results", "unexpected result list")
+		return
+	}
+	isParam := func(v ssa.Value) bool { _, ok := v.(*ssa.Parameter); return ok }
+	for i, ret := range core.Returns(fn) {
+		b, s := core.RetOperand(ret, 0), core.RetOperand(ret, 1)
+		ok := false
+		switch {
+		case isParam(b) && isParam(s):
+			ok = true // unchanged
+		default:
+			if ld, isLd := s.(*ssa.UnOp); isLd && ld.Op == token.MUL {
+				if fa, isFA := ld.X.(*ssa.FieldAddr); isFA && core.FieldOfAddr(fa).Name() == "nextSeq" {
+					ok = true
+				}
+			}
+		}
+		r.Check(ok, fmt.Sprintf("%s/return#%d/starts-at-nextSeq", core.FnKey(fn), i+1), p.InstrPos(ret), "the packet is returned unchanged, or trimmed and starting at nextSeq", "after trimming, the remainder of the packet is given a sequence number computed from the packet's own start instead of the connection's nextSeq: for a packet that lies wholly in the past (a retransmitted SYN/FIN after data) the amount cut is clamped to the packet's length, the result is below nextSeq, and the connection is rewound — following in-order data is queued behind a phantom gap and later released with a bogus skip")
+	}
+}
